@@ -116,12 +116,22 @@ def classify(op, kind, A, B, what):
     if B is not None:
         sis = sis + (list(B[2].values()) if B[0] == "v" else (list(B[2]) if B[0] == "d" else [B[1]]))
     cont = "valueset" if A[0] == "v" else "dsis"
+    via = ""
+    if op.startswith("ast_"):       # the same operation built as an AST and evaluated by the backend: same classes, marked
+        op, via = op[4:], ",through-the-backend"
     head = "C23/%s/%s/%s/" % (cont, op, kind)
     if op == "widen":
         return head + "inherits-C22-widen"
     if any(not vsa.aligned(t) for t in sis):
-        return head + "unaligned-member"
-    return head + "aligned-members"
+        return head + "unaligned-member"        # inherited from the interval operations whichever way the operation is reached
+    if A[0] == "v" and B is not None and B[0] == "v":
+        # two value sets: how the region sets are related, and whether the shared regions hold the same intervals
+        ra, rb = set(A[2]), set(B[2])
+        rel = ("equal" if ra == rb else "strict-subset-of-the-other" if ra < rb else "strict-superset-of-the-other" if ra > rb
+               else "disjoint" if not (ra & rb) else "overlapping")
+        same = bool(ra & rb) and all(A[2][r] == B[2][r] for r in ra & rb)
+        return head + "aligned-members/regions-%s%s%s" % (rel, ",same-intervals-on-shared-regions" if same else "", via)
+    return head + "aligned-members" + via
 
 
 def gen_cases(ctx):
@@ -192,6 +202,50 @@ def gen_cases(ctx):
         for op, ex in [("cardinality", ()), ("eval", (1,)), ("eval", (3,)), ("eval", (50,)), ("min", ()), ("max", ()),
                        ("extract", (w - 1, 0)), ("extract", (w - 2 if w > 1 else 0, 0)), ("extract", (w - 1, w - 1))]:
             cases.append(("v", op, A, None, ex))
+    # value sets whose region sets are RELATED (equal / strict subset / strict superset / overlapping), with identical,
+    # nested or different intervals on the shared regions: fast paths that compare the operands walk one side's regions only
+    VOPS = ("union", "intersection", "widen", "eq", "ne", "ast_union", "ast_intersection", "hist_union")
+
+    def related(A, pick):
+        w, regs = A[1], A[2]
+        out = [("v", w, dict(regs))]                                           # identical
+        free = [r for r in REG if r not in regs]
+        if free:                                                               # strict superset, same intervals on the shared regions
+            more = dict(regs)
+            for r in rng.sample(free, rng.randrange(1, len(free) + 1)):
+                more[r] = pick()
+            out.append(("v", w, more))
+        if len(regs) > 1:                                                      # strict subset
+            keep = rng.sample(sorted(regs), rng.randrange(1, len(regs)))
+            out.append(("v", w, {r: regs[r] for r in keep}))
+        ch = dict(regs)                                                        # same regions, one interval changed
+        r0 = rng.choice(sorted(regs))
+        ch[r0] = pick()
+        out.append(("v", w, ch))
+        if free:                                                               # overlapping: one region dropped, one added, one changed
+            ov = {r: t for r, t in ch.items() if r != r0 or len(ch) == 1}
+            ov[free[0]] = pick()
+            out.append(("v", w, ov))
+        return out
+
+    for _ in range(ctx.pick(250, 6000)):
+        w = rng.choice([2, 3, 3, 4, 8])
+        pool = pool2 if w == 2 else (pool3 if w == 3 else None)
+        pick = (lambda: rng.choice(pool)) if pool else (lambda: vsa.rand_si(rng, w, p_unaligned=0.05))
+        A = ("v", w, {r: pick() for r in rng.sample(REG, rng.choice([1, 1, 2, 2, 3]))})
+        for B in related(A, pick):
+            for op in VOPS:
+                cases.append(("v", op, A, B, ()))
+                if B[2] != A[2]:
+                    cases.append(("v", op, B, A, ()))
+    # bounded-exhaustive: every value set over two regions, each absent or one of five intervals; every ordered pair
+    for w, five in ((3, [(3, 0, 1, 1), (3, 0, 5, 5), (3, 1, 2, 4), (3, 2, 1, 7), (3, 1, 6, 1)]),):
+        opts = [None] + five
+        sets_ = [("v", w, {r: t for r, t in zip(("stack", "heap"), c) if t is not None}) for c in itertools.product(opts, repeat=2)]
+        for A in sets_:
+            for B in sets_:
+                for op in ("union", "intersection", "eq", "ne") + (("widen", "ast_union") if ctx.thorough() else ()):
+                    cases.append(("v", op, A, B, ()))
     return cases
 
 
